@@ -168,6 +168,17 @@ func Harness_C09_substitute_valid() {
 		V.Assume(p2 > p1 && p2 < len(s))
 		c2 := V.Byte("c2")
 		V.Assume(c2 != s[p2])
+		// two substitutions inside the data part by characters of the Bech32
+		// alphabet (in the string's own case) are decided for every position
+		// set by the parity-check sweep (extra job "bch"); here at least one of
+		// the two is something else (other case, outside the alphabet, '1', or
+		// a position in the prefix)
+		dataStart := len(s) - 58
+		cs := &lowerCharset
+		if ident {
+			cs = &upperCharset
+		}
+		V.Assume(!(p1 >= dataStart && cs[c1] && cs[c2]))
 		s[p2] = c2
 	}
 	var err error
@@ -180,3 +191,17 @@ func Harness_C09_substitute_valid() {
 	V.Assert(err != nil, "a key string with substituted characters was accepted")
 	_ = orig
 }
+
+var lowerCharset = func() (t [256]bool) {
+	for _, c := range "qpzry9x8gf2tvdw0s3jn54khce6mua7l" {
+		t[c] = true
+	}
+	return
+}()
+
+var upperCharset = func() (t [256]bool) {
+	for _, c := range "QPZRY9X8GF2TVDW0S3JN54KHCE6MUA7L" {
+		t[c] = true
+	}
+	return
+}()
